@@ -41,7 +41,7 @@ TABLE = {
 DYNAMIC_NUMERIC = {"param.parameters.Number", "param.parameters.Integer", "param.parameters.Magnitude"}
 
 
-def run_type(ctx, q):
+def run_type(ctx, q, rule="R01.h"):
     hier = ctx.hier
     f = hier.resolve(q, "_validate")
     name = q.rsplit(".", 1)[-1]
@@ -108,12 +108,12 @@ def run_type(ctx, q):
         what = {"none": "None", "ok": "a value of the declared type", "falsy": "an empty/zero (falsy) value of the declared type", "bad": "a value of a different type",
                 "callable": "a callable that is not of the declared type",
                 "datetime": "a datetime (a date by subclassing, but not a calendar date)"}[kind]
-        ctx.fail("R01.h", f, f.node, "%s with allow_None=%s %s %s (specification: %s)" % (
+        ctx.fail(rule, f, f.node, "%s with allow_None=%s %s %s (specification: %s)" % (
             name, an, "accepts" if got else "rejects", what, "reject" if got else "accept"),
             key="%s::type-none-table::%s::%s" % (q, kind, "accept" if got else "reject"),
             input="param.%s(allow_None=%s) <- %s" % (name, an, what))
     else:
-        ctx.ok("R01.h", f, f.node, "%s: %d/%d abstract cases agree (None iff allow_None; otherwise iff well typed)" % (name, n, n))
+        ctx.ok(rule, f, f.node, "%s: %d/%d abstract cases agree (None iff allow_None; otherwise iff well typed)" % (name, n, n))
 
 
 REGEX_TYPES = ("param.parameterized.String", "param.parameters.Bytes")
